@@ -382,10 +382,12 @@ MANIFEST = {
              "witnesses; no label is covered by differential execution only. One defect was repaired (stale TLA+ translation of proxy.tla)."),
     "level_note": ("Trusted: Coq kernel + vm_compute; SANY, stock pcal, go/parser; the two translators; coq/C02/Lang.v eval and Sem.v symex_go/symex_tla/subst "
                    "(the semantics of each side is DEFINED as run o symex; dtree_sound_go/tla are NOT proved: fuel monotonicity of eval and run is "
-                   "(eval_fuel_monotone, run_fuel_monotone), the substitution lemma for subst is not; instead run o symex_go is compared on every run with the direct environment-passing interpreter of "
+                   "(eval_fuel_monotone, run_fuel_monotone), the substitution lemma for subst only on the binder-free fragment "
+                   "(subst_binder_free_fragment: no LET/function constructor/quantifier/comprehension/CHOOSE, no EXCEPT); instead run o symex_go is compared on every run with the direct environment-passing interpreter of "
                    "coq/C02/Direct.v on walk states (quick: 5 systems, thorough: all 17) and with the REAL generated Go attempt by attempt "
                    "(locksvc 480 exact-choice attempts, dqueue/pbkvs/raftkvs ~400 attempts through harness/steplib, for some choice vector within the "
-                   "observed ceilings; proxy/replicatedkv likewise through own set-ups in harness/cmd/c02s); the TLA+ side (tla2coq + eval + symex_tla) is "
+                   "observed ceilings; proxy/replicatedkv likewise through own set-ups in harness/cmd/c02s; both comparisons also on the states "
+                   "reached by the corpus schedules of C08/C14/C16 on the real code: quick 3, thorough 15 schedules); the TLA+ side (tla2coq + eval + symex_tla) is "
                    "compared with TLC, the reference interpreter of TLA+: for sampled states of TLC's complete state graph (locksvc and dqueue with the "
                    "shipped constants, loadbalancer, shcounter, gcounter, shopcart, nestedcrdtimpl, IndexingLocals) the model's successor set must EQUAL "
                    "TLC's, and for pbkvs/raftkvs (shipped constants), proxy, replicatedkv, bug_167, bug2_124, PBFail4_bug125, NonDetExploration every "
